@@ -26,7 +26,8 @@ ASSUMPTIONS = [
     'coordinate classes covered: IdentityCoordinates and AffineCoordinates in 1-3 dimensions (astropy WCS is an external C library and is not modelled)',
     'views covered by the model: integers, slices (any step), shorter tuples, bare entries, Ellipsis/None, one list entry, tuples of index arrays; '
     'boolean masks and a bare ndarray view belong to C04 (F-C04a)',
-    'floating point: values are compared with absolute tolerance 1e-9 on inputs whose magnitude stays below 1e3',
+    'floating point: a value is compared with tolerance 1e-9 x (sum of |coefficient| x extent of the inputs + |offset|) of the row that produces it, '
+    'i.e. relative to the largest quantity entering its float computation (entries from 2^-40 to 2^30 are generated)',
 ]
 TOL = 1e-9
 
@@ -247,10 +248,43 @@ def exc_name(e):
     return type(e).__name__
 
 
-def close(a, b):
+def close(a, b, tol=TOL):
     a = np.asarray(a, dtype=float)
     b = np.asarray(b, dtype=float)
-    return a.shape == b.shape and bool(np.all(np.abs(a - b) <= TOL))
+    return a.shape == b.shape and bool(np.all(np.abs(a - b) <= tol))
+
+
+def aff_scale(A, b, mags):
+    """per output coordinate: sum_j |A[k][j]| * mags[j] + |b[k]|  = the size of the largest quantities that enter the float
+    computation of that coordinate (its round-off is a small multiple of eps times this)"""
+    return [sum(abs(F(A[k][j])) * F(mags[j]) for j in range(len(mags))) + abs(F(b[k])) for k in range(len(A))]
+
+
+def spec_scales(spec, mags):
+    """(forward, backward) scales in fits order for inputs bounded by mags (fits order); backward = the inverse applied to the forward range"""
+    n = spec_dim(spec)
+    if spec[0] == 'id':
+        return [F(m) for m in mags], [F(m) for m in mags]
+    _, M, t = spec
+    fw = aff_scale(M, t, mags)
+    Mi = finv(M)
+    ti = [-sum(Mi[i][j] * t[j] for j in range(n)) for i in range(n)]
+    return fw, aff_scale(Mi, ti, fw)
+
+
+def view_tols(spec, shape):
+    """tolerance per observation of one dataset: RTOL times the scale of the row times the extent of the grid (and never less than
+    RTOL times the extent for pixel values), instead of an absolute 1e-9 which hides a wrong value of order 1e-10"""
+    n = len(shape)
+    mags = [shape[n - 1 - j] - 1 for j in range(n)]          # fits order
+    fw, bw = spec_scales(spec, mags)
+    out = {}
+    for a in range(n):
+        k = n - 1 - a
+        out['world%d' % a] = out['link_p2w%d' % a] = TOL * float(fw[k])
+        # pixel values are of order of the grid extent whatever the scales of the matrix; numpy's inverse is accurate normwise, not row by row
+        out['link_w2p%d' % a] = TOL * float(max([bw[k], F(1)] + [F(m) for m in mags]))
+    return out
 
 
 def classify(spec, what, vj, detail):
@@ -351,17 +385,17 @@ def dec_vals(t):
     return np.array(vals, dtype=float).reshape(sh)
 
 
-def same(x, y):
+def same(x, y, tol=TOL):
     if isinstance(x, tuple) or isinstance(y, tuple):
         return isinstance(x, tuple) and isinstance(y, tuple) and x == y
-    return close(x, y)
+    return close(x, y, tol)
 
 
 def brief(x):
     if isinstance(x, tuple):
         return {'exception': x[1]}
     x = np.asarray(x)
-    return {'shape': list(x.shape), 'values': np.round(x, 9).ravel().tolist()[:24]}
+    return {'shape': list(x.shape), 'values': [float('%.12g' % v) for v in np.asarray(x, dtype=float).ravel().tolist()[:24]]}
 
 
 class Batch:
@@ -373,16 +407,16 @@ class Batch:
         self.items = []
         self.lines = []
 
-    def add(self, case, spec, shape, vj, impl, exp):
+    def add(self, case, spec, shape, vj, impl, exp, tols=None):
         ml = model_lines(spec, shape, vj)
         start = len(self.lines)
         self.lines += [l for _, l, _ in ml]
-        self.items.append((case, spec, shape, vj, impl, exp, ml, start))
+        self.items.append((case, spec, shape, vj, impl, exp, ml, start, tols or {}))
 
     def finish(self):
         R = self.R
         outs = R.model(self.lines) if self.lines else []
-        for case, spec, shape, vj, impl, exp, ml, start in self.items:
+        for case, spec, shape, vj, impl, exp, ml, start, tols in self.items:
             view = view_py(vj)
             for off, (name, _, post) in enumerate(ml):
                 m = dec_vals(outs[start + off])
@@ -393,7 +427,7 @@ class Batch:
                         m = ('exc', 'IndexError')
                 elif post == 'fancy' and not isinstance(m, tuple):
                     m = m.reshape(np.shape(vj[1][0][1]))
-                if name in impl and not same(impl[name], m):
+                if name in impl and not same(impl[name], m, tols.get(name, TOL)):
                     corr_fail(R, dict(case, observed=name), {'model': brief(m), 'impl': brief(impl[name])})
 
 
@@ -401,6 +435,7 @@ def check_views(R, batch, spec, shape, views, stream, late=False, kindname=''):
     """implementation vs oracle (immediately) and vs model (queued in batch) for one dataset and several views"""
     d = mk_data(spec, shape, late)
     grids = oracle_grids(spec, shape)
+    tols = view_tols(spec, shape)
     nfail = 0
     for vj in views:
         case = {'stream': stream, 'coords': spec_json(spec), 'shape': list(shape), 'view': vj, 'late': late}
@@ -410,9 +445,9 @@ def check_views(R, batch, spec, shape, views, stream, late=False, kindname=''):
         for name, e in exp.items():
             if not isinstance(e, tuple):
                 size = max(size, np.size(e))
-            if not same(impl[name], e):
+            if not same(impl[name], e, tols[name]):
                 nfail += 1
-                detail = {'observed': name, 'impl': brief(impl[name]), 'expected': brief(e)}
+                detail = {'observed': name, 'impl': brief(impl[name]), 'expected': brief(e), 'tolerance': tols[name]}
                 if isinstance(impl[name], tuple):
                     detail['impl_exception'] = impl[name][1]
                     detail['expected_size'] = 0 if isinstance(e, tuple) else int(np.size(e))
@@ -421,7 +456,7 @@ def check_views(R, batch, spec, shape, views, stream, late=False, kindname=''):
                 stream=stream, ndim=len(shape), matrix_kind=kindname or matrix_kind(spec), view_kind=vj[0],
                 result_size=min(size, 30))
         if batch is not None:
-            batch.add(case, spec, shape, vj, impl, exp)
+            batch.add(case, spec, shape, vj, impl, exp, tols)
     return nfail
 
 
@@ -514,6 +549,68 @@ def random_structured(rng, n):
     if det([list(r) for r in M]) == 0:
         return random_structured(rng, n)
     return M
+
+
+def dir_scale(spec, dcode, mags):
+    """scale per output coordinate (fits order) of: 1 forward, 0 inverse applied to inputs bounded by mags, 2 round trip"""
+    n = spec_dim(spec)
+    if dcode == 1:
+        return spec_scales(spec, mags)[0]
+    # backward: np.linalg.inv is accurate relative to the largest entry of the inverse (normwise), so one scale for all coordinates
+    if dcode == 2:
+        sc = spec_scales(spec, mags)[1] + [F(m) for m in mags] + [F(1)]
+    elif spec[0] == 'id':
+        sc = [F(m) for m in mags]
+    else:
+        _, M, t = spec
+        Mi = finv(M)
+        ti = [-sum(Mi[i][j] * t[j] for j in range(n)) for i in range(n)]
+        sc = aff_scale(Mi, ti, mags)
+    return [max(sc)] * n
+
+
+MAG_CLASSES = {'tiny': [-40, -34, -27], 'small': [-27, -20], 'tiny-small': [-40, -34, -27, -20], 'unit': [0, 1, -1], 'big': [20, 30]}
+
+
+def random_magnitudes(rng, n):
+    """(M, t): entries are +-2^e with e from one magnitude class per row (classes differ between the rows of one matrix: 2^-40 .. 2^30),
+    pattern diagonal / permuted / coupled / triangular.  Within a row the exponents span at most 2^20 and the offset is a small integer
+    multiple of the smallest entry of the row, so every world value is exactly representable in float64 and the smallest term of a row is
+    far above 1e-9 times the largest one."""
+    kind = rng.choice(['diag', 'diag', 'perm', 'coupled', 'coupled', 'tri'])
+    rows = [rng.choice(list(MAG_CLASSES)) for _ in range(n)]
+
+    def entry(k):
+        return F(2) ** rng.choice(MAG_CLASSES[rows[k]]) * rng.choice([1, 1, -1])
+    M = [[F(0)] * n for _ in range(n)]
+    if kind == 'diag':
+        for i in range(n):
+            M[i][i] = entry(i)
+    elif kind == 'perm':
+        p = list(range(n))
+        rng.shuffle(p)
+        for i in range(n):
+            M[i][p[i]] = entry(i)
+    elif kind == 'tri':
+        up = rng.random() < 0.5
+        for i in range(n):
+            M[i][i] = entry(i)
+            for j in range(n):
+                if (j > i if up else j < i) and rng.random() < 0.6:
+                    M[i][j] = entry(i)
+    else:
+        p = list(range(n))
+        rng.shuffle(p)
+        for i in range(n):
+            M[i][p[i]] = entry(i)
+            for j in range(n):
+                if j != p[i] and rng.random() < 0.5:
+                    M[i][j] = entry(i)
+    M = tuple(tuple(r) for r in M)
+    if det([list(r) for r in M]) == 0:
+        return random_magnitudes(rng, n)
+    t = tuple(min(abs(x) for x in M[i] if x != 0) * rng.choice([0, 1, -3, 2000, -513]) for i in range(n))
+    return M, t
 
 
 def small_translation(rng, n):
@@ -634,6 +731,36 @@ def stream_random(R):
              bound='seeded: diagonal / permuted / block / triangular / unimodular x row scaling, entries from small integers and dyadics, 1-3 dims, sizes 1..5')
 
 
+def stream_magnitudes(R):
+    """matrices whose non-zero entries span 2^-40 .. 2^30 (a wavelength axis in metres next to a frequency axis in Hz): a coefficient is
+    'non-zero' however small it is; every comparison is relative to the scale of the row"""
+    batch = Batch(R, 'magnitudes')
+    # physically motivated fixed cases with decimal (non-dyadic) entries: a wavelength axis in metres, alone and next to a position / frequency axis
+    fixed = [(((F('2e-10'),),), (F('4e-7'),), (6,)),
+             (((F('2e-10'), F(0)), (F(0), F('0.5'))), (F('4e-7'), F(10)), (3, 5)),
+             (((F(0), F('3e-9')), (F('1.5e6'), F(0))), (F('5e-7'), F('1.4e9')), (4, 3)),
+             (((F('2e-10'), F('1e-12'), F(0)), (F(0), F(1), F(0)), (F(0), F(0), F('2.5e8'))), (F('4e-7'), F(0), F('1e9')), (2, 3, 4))]
+    rng = R.subrng('magnitudes-fixed')
+    for M, t, shape in fixed:
+        views = [['tuple', [['s', None, None, None]] * len(shape)], ['none', []], ['ellipsis', []]] + [random_view(rng, shape) for _ in range(6)]
+        check_views(R, batch, ('aff', M, t), shape, views, 'magnitudes')
+    N = R.pick(300, 2500)
+    for i in range(N):
+        rng = R.subrng('magnitudes', i)
+        n = rng.choice([1, 1, 2, 2, 3, 3])
+        M, t = random_magnitudes(rng, n)
+        spec = ('aff', M, t)
+        shape = tuple(rng.choice([2, 3, 4, 5]) for _ in range(n))
+        views = [['tuple', [['s', None, None, None]] * n], ['none', []]] + [random_view(rng, shape) for _ in range(R.pick(3, 4))]
+        check_views(R, batch, spec, shape, views, 'magnitudes', late=rng.choice([0, 0, 0, 1, 2]))
+        if i < 2:
+            R.sample({'coords': spec_json(spec), 'shape': list(shape), 'views': views[:3]})
+    batch.finish()
+    R.stream('magnitudes', datasets=N, exhaustive=False,
+             bound='entries +-2^e, e from one class per row (tiny -40/-34/-27, small -27/-20, tiny-small, unit, big 20/30), diagonal / permuted / coupled / '
+                   'triangular, 1-3 dims, sizes 2..5, offsets = small integer multiples of the smallest entry of the row; tolerance 1e-9 x row scale x extent')
+
+
 def stream_single_axis(R):
     """the helpers called directly with inputs that are broadcast along arbitrary axes and whose first element is not special"""
     from glue.core.coordinate_helpers import pixel2world_single_axis, world2pixel_single_axis
@@ -643,6 +770,8 @@ def stream_single_axis(R):
         rng = R.subrng('single', i)
         n = rng.choice([1, 2, 3])
         spec = ('id', n) if rng.random() < 0.05 else ('aff', random_structured(rng, n), small_translation(rng, n))
+        if rng.random() < 0.3:
+            spec = ('aff',) + random_magnitudes(rng, n)
         c = mk_coords(spec)
         oshape = tuple(rng.choice([1, 2, 3]) for _ in range(rng.choice([1, 2, 3])))
         ins = []
@@ -677,17 +806,18 @@ def stream_single_axis(R):
                 nm = ('p2w_single' if direction else 'w2p_single')
                 R.count(('single', spec, direction, ax, tuple(a.tobytes() for a in ins), oshape), nontrivial=len(flat[0]) > 1 if spec[0] != 'id' else False,
                         stream='single_axis', ndim=n, matrix_kind=matrix_kind(spec))
-                if not same(r, exp):
-                    oracle_fail(R, case, {'impl': brief(r), 'expected': brief(exp)}, key=classify(spec, nm, None, None))
+                tol = TOL * float(dir_scale(spec, direction, [float(np.max(np.abs(a))) for a in ins])[ax])
+                if not same(r, exp, tol):
+                    oracle_fail(R, case, {'impl': brief(r), 'expected': brief(exp), 'tolerance': tol}, key=classify(spec, nm, None, None))
                 lines.append(enc((4, [coords_enc(spec), direction, ax, (0, [vec_enc([F(float(x)) for x in a.ravel()]) for a in ins])])))
-                meta.append((case, r, oshape))
+                meta.append((case, r, oshape, tol))
     outs = R.model(lines)
-    for (case, r, oshape), o in zip(meta, outs):
+    for (case, r, oshape, tol), o in zip(meta, outs):
         m = dec_vals(o)
         if not isinstance(m, tuple):
             m = m.reshape(oshape)
-        if not same(r, m):
-            corr_fail(R, case, {'model': brief(m), 'impl': brief(r)})
+        if not same(r, m, tol):
+            corr_fail(R, case, {'model': brief(m), 'impl': brief(r), 'tolerance': tol})
     R.stream('single_axis', cases=len(lines), exhaustive=False,
              bound='pixel2world_single_axis / world2pixel_single_axis with 1-3 inputs broadcast along random axes of shapes up to 3x3x3')
 
@@ -700,8 +830,11 @@ def stream_direct(R):
         rng = R.subrng('direct', i)
         n = rng.choice([1, 2, 3])
         spec = ('id', n) if rng.random() < 0.1 else ('aff', random_structured(rng, n), small_translation(rng, n))
+        if rng.random() < 0.3:
+            spec = ('aff',) + random_magnitudes(rng, n)
         c = mk_coords(spec)
         shape = tuple(rng.choice([1, 2, 3]) for _ in range(n))
+        gt = view_tols(spec, shape)
         idx = np.indices(shape).astype(float)
         worlds, pix = oracle_grids(spec, shape)
         case = {'stream': 'direct', 'coords': spec_json(spec), 'shape': list(shape)}
@@ -710,8 +843,8 @@ def stream_direct(R):
             w = [w] if n == 1 else list(w)
             back = c.world_to_pixel_values(*w)
             back = [back] if n == 1 else list(back)
-            ok = all(close(w[n - 1 - a], worlds[a]) for a in range(n))
-            okb = all(close(back[n - 1 - a], pix[a]) for a in range(n))
+            ok = all(close(w[n - 1 - a], worlds[a], gt['world%d' % a]) for a in range(n))
+            okb = all(close(back[n - 1 - a], pix[a], gt['link_w2p%d' % a]) for a in range(n))
         except Exception as e:  # noqa
             ok = okb = False
             w = back = exc_name(e)
@@ -734,15 +867,16 @@ def stream_direct(R):
                 r = np.array([float(r)] if n == 1 else [float(v) for v in r])
             except Exception as e:  # noqa
                 r = ('exc', exc_name(e))
-            if dcode == 2 and not same(r, np.array([float(v) for v in x])):
-                oracle_fail(R, dict(case, observed='round trip of a point', point=[str(v) for v in x]), {'impl': brief(r)}, key=None)
+            tol = TOL * np.array([float(v) for v in dir_scale(spec, dcode, [abs(v) for v in x])])
+            if dcode == 2 and not same(r, np.array([float(v) for v in x]), tol):
+                oracle_fail(R, dict(case, observed='round trip of a point', point=[str(v) for v in x]), {'impl': brief(r), 'tolerance': tol.tolist()}, key=None)
             lines.append(enc((5, [coords_enc(spec), dcode, vec_enc(x)])))
-            meta.append((dict(case, point=[str(v) for v in x], direction=dcode), r))
+            meta.append((dict(case, point=[str(v) for v in x], direction=dcode), r, tol))
     outs = R.model(lines)
-    for (case, r), o in zip(meta, outs):
+    for (case, r, tol), o in zip(meta, outs):
         m = dec_vals(o)
-        if not same(r, m):
-            corr_fail(R, case, {'model': brief(m), 'impl': brief(r)})
+        if not same(r, m, tol):
+            corr_fail(R, case, {'model': brief(m), 'impl': brief(r), 'tolerance': tol.tolist()})
     R.stream('direct', cases=N, exhaustive=False, bound='pixel_to_world_values / world_to_pixel_values on whole grids and on single (also non-integer) points')
 
 
@@ -773,6 +907,7 @@ def run(R):
     _ncorr.clear()
     stream_small(R)
     stream_random(R)
+    stream_magnitudes(R)
     stream_single_axis(R)
     stream_direct(R)
     stream_malformed(R)
@@ -784,7 +919,7 @@ def shrink_failures(R):
     """replace each oracle failure of the view streams by a smaller failing case when one exists (smaller shape, simpler view)"""
     done = 0
     for f in R.failures:
-        if f['kind'] != 'oracle' or f['case'].get('stream') not in ('small', 'random') or done >= 8:
+        if f['kind'] != 'oracle' or f['case'].get('stream') not in ('small', 'random', 'magnitudes') or done >= 8:
             continue
         done += 1
         case = dict(f['case'])
@@ -832,14 +967,15 @@ def shrink_failures(R):
 def replay(R, case):
     st = case.get('stream')
     out = {'case': case}
-    if st in ('small', 'random', 'malformed'):
+    if st in ('small', 'random', 'malformed', 'magnitudes'):
         spec = spec_from_json(case['coords'])
         shape = tuple(case['shape'])
         vj = case['view']
         d = mk_data(spec, shape, case.get('late', False))
         impl = observe(d, spec, shape, vj)
         exp = expected(spec, shape, vj, oracle_grids(spec, shape))
-        failing = [k for k in exp if not same(impl[k], exp[k])]
+        tols = view_tols(spec, shape)
+        failing = [k for k in exp if not same(impl[k], exp[k], tols[k])]
         out.update(failing=failing, violates=bool(failing),
                    impl={k: brief(impl[k]) for k in (failing or list(exp)[:2])}, expected={k: brief(exp[k]) for k in (failing or list(exp)[:2])})
         if R is not None and R.model_available:
@@ -866,7 +1002,8 @@ def replay(R, case):
         else:
             flat = [a.ravel() for a in ins]
             exp = np.array([float(apply_exact(A, b, [F(float(f[p])) for f in flat])[ax]) for p in range(len(flat[0]))]).reshape(ins[0].shape)
-        out.update(impl=brief(r), expected=brief(exp), violates=not same(r, exp))
+        tol = TOL * float(dir_scale(spec, 1 if case['direction'] == 'p2w' else 0, [float(np.max(np.abs(a))) for a in ins])[ax])
+        out.update(impl=brief(r), expected=brief(exp), tolerance=tol, violates=not same(r, exp, tol))
     elif st == 'direct':
         spec = spec_from_json(case['coords'])
         n = spec_dim(spec)
@@ -878,7 +1015,9 @@ def replay(R, case):
         w = [w] if n == 1 else list(w)
         back = c.world_to_pixel_values(*w)
         back = [back] if n == 1 else list(back)
-        ok = all(close(w[n - 1 - a], worlds[a]) for a in range(n)) and all(close(back[n - 1 - a], pix[a]) for a in range(n))
+        gt = view_tols(spec, shape)
+        ok = (all(close(w[n - 1 - a], worlds[a], gt['world%d' % a]) for a in range(n)) and
+              all(close(back[n - 1 - a], pix[a], gt['link_w2p%d' % a]) for a in range(n)))
         out.update(violates=not ok, impl=[brief(x) for x in w])
     else:
         out['note'] = 'replay by re-running the stream: ./check C15 --tier quick'
